@@ -128,7 +128,14 @@ func runSchedule(r *Run, sc schedScenario, prefix []int) (alts [][]int, taken []
 			q = x.callbackReq(other, x.iss, code)
 		}
 		reqs[i+1] = q
-		w.spawn(r, i+1, q)
+	}
+	// the model fixes a thread's oracles when it is spawned: every token string and verifier any thread of this
+	// scenario can meet (its own scripted answer, but also what another thread stores) is announced before the first spawn
+	for i := range sc.Threads {
+		w.announce(r, []string{reqs[i+1].IDP.ID}, []string{reqs[i+1].Gen[3]})
+	}
+	for i := range sc.Threads {
+		w.spawn(r, i+1, reqs[i+1])
 	}
 	for {
 		a := w.alive()
